@@ -189,6 +189,8 @@ struct World {
     fns: Vec<Located<Item>>,
     unknown: Vec<String>,
     files: Vec<String>,
+    /// `use` declarations per module: which traits and helpers are in scope decides what a method call resolves to
+    uses: Vec<(String, String)>,
 }
 
 fn mod_join(a: &str, b: &str) -> String {
@@ -336,6 +338,10 @@ fn collect_items(w: &mut World, src: &Path, file: &Path, module: &str, cfg: &Cfg
             Item::Fn(_) => {
                 w.fns.push(Located { module: module.to_string(), cfg: c, item });
             }
+            Item::Use(u) => {
+                let txt = u.tree.to_token_stream().to_string().replace(' ', "");
+                w.uses.push((module.to_string(), if matches!(c, Cfg::True) { txt } else { format!("{} if {}", txt, c.coq()) }));
+            }
             _ => {}
         }
     }
@@ -398,7 +404,11 @@ impl<'ast> syn::visit::Visit<'ast> for Shape {
         match e {
             Expr::MethodCall(m) => {
                 self.visit_expr(&m.receiver);
-                self.toks.push(format!(".{}", m.method));
+                match &m.turbofish {
+                    // explicit type arguments select the implementation that runs (next_element::<T>, parse::<T>, ...)
+                    Some(tf) => self.toks.push(format!(".{}::{}", m.method, tf.to_token_stream().to_string().replace(' ', ""))),
+                    None => self.toks.push(format!(".{}", m.method)),
+                }
                 for a in &m.args {
                     self.visit_expr(a);
                 }
@@ -406,7 +416,15 @@ impl<'ast> syn::visit::Visit<'ast> for Shape {
             }
             Expr::Call(c) => {
                 if let Expr::Path(p) = &*c.func {
-                    let segs: Vec<String> = p.path.segments.iter().map(|s| s.ident.to_string()).collect();
+                    let segs: Vec<String> = p
+                        .path
+                        .segments
+                        .iter()
+                        .map(|s| match &s.arguments {
+                            syn::PathArguments::None => s.ident.to_string(),
+                            a => format!("{}{}", s.ident, a.to_token_stream().to_string().replace(' ', "")),
+                        })
+                        .collect();
                     let n = segs.len();
                     self.toks.push(format!("call {}", if n >= 2 { format!("{}::{}", segs[n - 2], segs[n - 1]) } else { segs.join("::") }));
                 } else {
@@ -1649,6 +1667,17 @@ fn main() {
 
     // ---- shapes of all function bodies (separate file, imported only by the shape obligations)
     let mut shapes: Vec<(String, Vec<String>)> = vec![];
+    {
+        // one pseudo-entry per module: its `use` declarations (sorted)
+        let mut per: BTreeMap<String, Vec<String>> = BTreeMap::new();
+        for (m, u) in &w.uses {
+            per.entry(m.clone()).or_default().push(u.clone());
+        }
+        for (m, mut us) in per {
+            us.sort();
+            shapes.push((format!("{}::<uses>", if m.is_empty() { "crate" } else { m.as_str() }), us));
+        }
+    }
     for li in &w.fns {
         if let Item::Fn(f) = &li.item {
             shapes.push((mod_join(&li.module, &f.sig.ident.to_string()), shape_of(&f.sig, &f.block)));
